@@ -33,7 +33,7 @@ R(i) == <<"r", i>>                                       \* real-valued (not ang
 TCmd(name, e, pos, dag) == [name |-> name, e |-> e, pos |-> pos, dag |-> dag]
 
 \* ---- templates ------------------------------------------------------------------------------------
-Bands == CASE TemplateId = "n2" -> <<2>> [] TemplateId = "n3" -> <<3>> [] TemplateId = "n3b" -> <<3>> [] TemplateId = "b22" -> <<2, 2>> [] TemplateId = "b23" -> <<2, 3>> [] TemplateId = "b352" -> <<3, 5, 2>> [] TemplateId = "n2x" -> <<2>>
+Bands == CASE TemplateId = "n2" -> <<2>> [] TemplateId = "n3" -> <<3>> [] TemplateId = "n3b" -> <<3>> [] TemplateId = "b22" -> <<2, 2>> [] TemplateId = "b23" -> <<2, 3>> [] TemplateId = "b352" -> <<3, 5, 2>> [] TemplateId = "n2x" -> <<2>> [] TemplateId = "b12r" -> <<1, 2>>
 Bin == CASE TemplateId = "n2" ->
               << TCmd("Sgate", <<C(Q(4, 3)), C(A0)>>, <<1>>, FALSE), TCmd("BSgate", <<P(1), C(A0)>>, <<0, 1>>, FALSE),
                  TCmd("Rgate", <<P(2)>>, <<1>>, FALSE), TCmd("MeasureHomodyne", <<P(3)>>, <<0>>, FALSE) >>
@@ -67,6 +67,11 @@ Bin == CASE TemplateId = "n2" ->
               << TCmd("Sgate", <<C(Q(4, 3)), C(A0)>>, <<1>>, FALSE), TCmd("Xgate", <<R(1)>>, <<1>>, FALSE),
                  TCmd("BSgate", <<P(1), C(A0)>>, <<0, 1>>, FALSE), TCmd("CZgate", <<R(1)>>, <<0, 1>>, FALSE),
                  TCmd("Zgate", <<R(1)>>, <<1>>, TRUE), TCmd("MeasureHomodyne", <<P(3)>>, <<0>>, FALSE) >>
+         \* two bands whose measurements are written in descending band order (the samples are still arranged by band)
+         [] TemplateId = "b12r" ->
+              << TCmd("Sgate", <<C(Q(4, 3)), C(A0)>>, <<2>>, FALSE), TCmd("Sgate", <<C(Q(3, 4)), C(APi2)>>, <<0>>, FALSE),
+                 TCmd("BSgate", <<P(1), C(A0)>>, <<0, 2>>, FALSE), TCmd("Rgate", <<P(2)>>, <<1>>, FALSE),
+                 TCmd("MeasureHomodyne", <<P(3)>>, <<1>>, FALSE), TCmd("MeasureHomodyne", <<P(1)>>, <<0>>, FALSE) >>
 AngleCycle == <<a345, APi2, am345, A0, a435>>
 NArrays == 3
 Arr(i, t) == AngleCycle[((t + 2 * i) % 5) + 1]          \* value of the i-th array at time bin t (t from 0)
